@@ -59,6 +59,49 @@ def replay(model, kind, seed=0):
                                "real_Vshell": float(full[3]), "spec_Vshell": float(tot_v / tot_w)}
 
 
+def replay_valid_region():
+    """A mesh of 150 points (two kernel invocations) that straddles the validity region of capped_cylinder
+    (radius_cap >= radius): the real kernel against the defining sum over the VALID points with weight > cutoff."""
+    import itertools
+    from sasmodels import core
+    from sasmodels.direct_model import get_mesh
+    from sasmodels.details import make_kernel_args
+    m = core.load_model("capped_cylinder")
+    info = m.info
+    q = np.linspace(0.01, 0.3, 5)
+    kern = m.make_kernel([q])
+    pars = {"radius": 20.0, "radius_cap": 22.0, "length": 300.0,
+            "radius_cap_pd": 0.2, "radius_cap_pd_n": 15, "radius_cap_pd_nsigma": 3.0,
+            "length_pd": 0.1, "length_pd_n": 10}
+    cutoff = 1e-4
+    mesh = get_mesh(info, pars, dim=kern.dim)
+    details, values, magnetic = make_kernel_args(kern, mesh)
+    full = kern.Fq(details, values, cutoff, magnetic, 1)
+    names = [p.name for p in info.parameters.call_parameters[2:2 + info.parameters.npars]]
+    vals = [np.atleast_1d(v[1]) for v in mesh[2:2 + info.parameters.npars]]
+    wts = [np.atleast_1d(v[2]) for v in mesh[2:2 + info.parameters.npars]]
+    tot_w, tot_f2, tot_v, ninvalid = 0.0, 0.0, 0.0, 0
+    for idx in itertools.product(*[range(len(v)) for v in vals]):
+        w = np.prod([wts[k][i] for k, i in enumerate(idx)])
+        point = {names[k]: vals[k][i] for k, i in enumerate(idx)}
+        if not point["radius_cap"] >= point["radius"]:
+            ninvalid += 1
+            continue
+        if w <= cutoff:
+            continue
+        d1, v1, mag1 = make_kernel_args(kern, get_mesh(info, point, dim=kern.dim))
+        r = kern.Fq(d1, v1, 0.0, mag1, 1)
+        tot_w += w
+        tot_f2 = tot_f2 + w * np.array(r[1])
+        tot_v += w * r[3]
+    expect = tot_f2 / tot_w
+    bad = not np.allclose(np.array(full[1]), expect, rtol=1e-9) or abs(full[3] - tot_v / tot_w) > 1e-9 * abs(full[3])
+    return bool(bad), {"call": "capped_cylinder Iq kernel, mesh 15 x 10 (%d points outside radius_cap >= radius), cutoff %g"
+                               % (ninvalid, cutoff),
+                       "real_F2": np.array(full[1]).tolist(), "spec_F2": expect.tolist(),
+                       "real_Vshell": float(full[3]), "spec_Vshell": float(tot_v / tot_w)}
+
+
 def replay_magnetic(model, seed=0):
     """The real magnetic 2-D intensity against the documented channel sum built
     from *non-magnetic* evaluations of the same model with every SLD replaced
